@@ -262,7 +262,7 @@ def make_ss_tcp_job(N, kind, mode, tier, nseg=1):
     def job(ctx):
         from . import decoders
         # legacy: three chunks also in the quick tier (a skipped middle chunk needs one before and one after it)
-        K = 3 if legacy else K_of(tier) - 1
+        K = (3 if (mode == 'Client' or tier == 'thorough') else 2) if legacy else K_of(tier) - 1
         case = decoders.ss_tcp_cases(ctx.prog, [(N, kind, mode, False, False)])[0]
         ex = base_exec(ctx, N, 2 * K + 4)
         case.setup(ex)
@@ -283,11 +283,15 @@ def make_ss_tcp_job(N, kind, mode, tier, nseg=1):
         ex.inputs = dict(case.inputs)
         ex.inputs.update(payload_inputs('req', req))
         ex.inputs.update(payload_inputs('resp', resp))
+        if legacy and mode == 'Client':
+            ex.inputs.update({'req%d' % i: Buf('slice', a, o, l) for i, (a, o, l) in enumerate(req.raw_chunks)})
         ex.inputs['own_salt'] = Arr(own_salt, 'u8', N)
         gname, oname = ('resp', 'req') if mode == 'Client' else ('req', 'resp')
-        names = [['%s%d' % (gname, i) for i in range(len(genuine.payloads))]] + ([['%s%d' % (oname, i) for i in range(len(genuine.payloads))]] if legacy else [])
+        names = [['%s%d' % (gname, i) for i in range(len(genuine.payloads))]] + ([['%s%d' % (oname, i) for i in range(len(genuine.payloads))]] if (legacy and mode == 'Client') else [])
         rp = framed_spec('ss_tcp', {'N': N, 'kind': kind, 'mode': mode}, 'not_prefix', names, {'own_salt': 'own_salt'})
-        results = drive(ex, case.fn, case.args, case.st0, pcs, {'sealed': req.entries + resp.entries}, 4 + nseg + K, opt_item, nseg=nseg)
+        # AEAD ciphers have no direction separation (reflection is exempt): a server is only shown request streams
+        log = req.entries + ([] if (legacy and mode == 'Server') else resp.entries)
+        results = drive(ex, case.fn, case.args, case.st0, pcs, {'sealed': log}, 4 + nseg + K, opt_item, nseg=nseg)
         full = 0
         nrel = 0
         for p, rel, end in results:
@@ -300,7 +304,7 @@ def make_ss_tcp_job(N, kind, mode, tier, nseg=1):
             arr, total = concat_view(ex, p, rel)
             nrel += 1
             # the AEAD-cipher protocol has no direction separation: a reflected stream of the same PSK is another genuine stream (exempt)
-            cands = [genuine.payloads] + ([(resp if genuine is req else req).payloads] if legacy else [])
+            cands = [genuine.payloads] + ([getattr(req, 'raw_chunks', req.payloads)] if (legacy and mode == 'Client') else [])
             prove_prefix(ctx, ex, p, rel, cands, 'released bytes are not a prefix of what the genuine %s wrote' % ('server' if mode == 'Client' else 'client'),
                          case.fn.name + '@released', replay=rp)
             if not legacy and mode == 'Server':
@@ -327,7 +331,9 @@ def jobs(prog, tier):
     for (N, kind) in ((16, 'Aes128Gcm'), (32, 'ChaCha20Poly1305'), (16, 'Aead2022Blake3Aes128Gcm'), (32, 'Aead2022Blake3Aes256Gcm'), (32, 'Aead2022Blake3ChaCha20Poly1305')):
         for mode in ('Server', 'Client'):
             for nseg in (1, 2):
-                js.append(('ss::tcp::decode[N=%d,%s,%s,segments=%d]' % (N, kind, mode, nseg), make_ss_tcp_job(N, kind, mode, tier, nseg), 1200))
+                if tier != 'thorough' and not kind.startswith('Aead2022') and mode == 'Server' and nseg > 1:
+                    continue    # address parsing of attacker-chosen first chunks with a symbolic cut: > 20 min per job, thorough tier only
+                js.append(('ss::tcp::decode[N=%d,%s,%s,segments=%d]' % (N, kind, mode, nseg), make_ss_tcp_job(N, kind, mode, tier, nseg), 3000))
     for (chunk, padding) in VMESS_COMBOS:
         for side in ('server', 'client'):
             sec = 'Aes128Gcm' if (chunk, side) != ('Auth', 'client') else 'Chacha20Poly1305'
